@@ -1,6 +1,120 @@
 """Claim texts per property for MANIFEST.json."""
 NOT_APPLICABLE = {}
 CLAIMS = {
+    'C01': {'note': 'Trusted: Coq kernel+vm_compute; hand-written model (validated by lock-step replay); Go harness; jwx / encoding/json / net/url behind descriptors computed by the harness (jwt.Parse result, '
+         "independent stdlib signature verifier). Gallina axioms: none (Closed under the global context). Session timeouts are C10's business; gRPC transport and Envoy failure-mode policy are "
+         'outside.',
+ 'technique': "Coq proof by symbolic execution of the handler's program tree (free monad over store/IdP/key/generator effects): for ALL environment answer lists, OK has one of two exact trace "
+              'shapes; lifted to the abstract session map; correspondence: lock-step replay of recorded real executions incl. systematic fault-point enumeration',
+ 'text': 'Machine-checked: C01_ok_justified (for every config, token universe, clock, request and every list of environment answers - every store/IdP/key failure at every position included - an OK '
+         'verdict has exactly the fresh-tokens shape or the successful-refresh shape), C01_any_failure_denies, C01_no_cookie_no_ok, C01_ok_needs_live_session (against the abstract session map). Tie '
+         'to the code on every run: the REAL handler of the current tree is driven over generated histories with spying wrappers around the real stores (memory, Redis/miniredis), key provider, '
+         'generator, clock and a loopback token endpoint; every effect with its arguments and every response are recorded, the Coq model is replayed in lock-step on the recorded answers (any '
+         "difference in effects, their order, their arguments or the projected response is a correspondence failure) and the property's monitor is evaluated on the implementation's own trace by coqc "
+         '(vm_compute). Quick: ~600 random histories (8-40 requests, faults before/after effect singly and in pairs, adversarial provider, both stores) + ~250 enumerated fault placements over 7 base '
+         'scenarios, each followed by healthy requests.'},
+    'C02': {'note': 'Trusted: Coq kernel+vm_compute; hand-written model (validated by lock-step replay); Go harness; jwx / encoding/json / net/url behind descriptors computed by the harness (jwt.Parse result, '
+         'independent stdlib signature verifier). Gallina axioms: none (Closed under the global context). Equal header names for ID and access token drop the ID token (config corner, Example '
+         'C02_same_header_drops_id_token; not reported as a violation).',
+ 'technique': 'Coq proof: tokens are written only in two fully determined trace shapes whose ID token validated (all answer lists); invariant over all histories that the session map only holds '
+              'validated ID tokens; correspondence: lock-step replay + adversarial JWT grammar with an independent stdlib verifier',
+ 'text': 'Machine-checked: C02_bound_implies_validated (settok_shape for all runs), C02_forwarded_eq_bound, C02_header_encoding, C02_store_holds_only_validated (invariant of every history from the '
+         'empty map, by induction). Tie to the code on every run: the REAL handler of the current tree is driven over generated histories with spying wrappers around the real stores (memory, '
+         'Redis/miniredis), key provider, generator, clock and a loopback token endpoint; every effect with its arguments and every response are recorded, the Coq model is replayed in lock-step on '
+         "the recorded answers (any difference in effects, their order, their arguments or the projected response is a correspondence failure) and the property's monitor is evaluated on the "
+         "implementation's own trace by coqc (vm_compute). The provider simulator answers from an adversarial grammar on login and refresh (alg none, HMAC-with-public-key, foreign key same kid, kid "
+         "games, tampered, stripped, 2-segment, garbage; audience and nonce variants); every token's signature verdict is computed by crypto/rsa / crypto/ecdsa independently of jwx."},
+    'C03': {'note': 'Trusted: Coq kernel+vm_compute; hand-written model (validated by lock-step replay); Go harness; jwx / encoding/json / net/url behind descriptors computed by the harness (jwt.Parse result, '
+         'independent stdlib signature verifier). Gallina axioms: none (Closed under the global context).',
+ 'technique': 'Coq proof by forward execution of the three checks of a login against the abstract session map, for all requests/configs/compliant answers; correspondence: full browser runs against '
+              'the real handler over the product of compliant provider shapes x configs x stores x URLs',
+ 'text': "Machine-checked: C03_login_completes (the three checks of a login - redirect, callback with ONE exchange and 302 to the first URL byte for byte, then OK with the provider's tokens and no "
+         "further provider call - for every config, map state, first request, generator tuple and compliant provider answer), C03_lifetime (exact meaning of 'tokens remain valid'). Tie to the code "
+         'on every run: the REAL handler of the current tree is driven over generated histories with spying wrappers around the real stores (memory, Redis/miniredis), key provider, generator, clock '
+         'and a loopback token endpoint; every effect with its arguments and every response are recorded, the Coq model is replayed in lock-step on the recorded answers (any difference in effects, '
+         "their order, their arguments or the projected response is a correspondence failure) and the property's monitor is evaluated on the implementation's own trace by coqc (vm_compute). Quick: a "
+         'third of the product expires_in{absent,60,3600} x refresh x audience{string,array} x token_type capitalisations x 3 configs x {memory,redis} x URLs with reserved/non-ASCII bytes, each '
+         'followed by 1-8 requests inside the lifetime.'},
+    'C04': {'note': 'Trusted: Coq kernel+vm_compute; hand-written model (validated by lock-step replay); Go harness; jwx / encoding/json / net/url behind descriptors computed by the harness (jwt.Parse result, '
+         'independent stdlib signature verifier). Gallina axioms: none (Closed under the global context). Overlapping identical callbacks (both reaching the provider before either completes) are a '
+         "schedule question covered under C09's exploration; single use of the code is the provider's duty.",
+ 'technique': "Coq proof: every token-endpoint call of every run is the 2nd effect of a callback bound to the presented session's stored state/verifier (or the refresh); consumption and replay "
+              'theorems over the session map; correspondence: lock-step replay of multi-browser + attacker histories with a strict RFC 6749/7636 ledger monitor',
+ 'text': 'Machine-checked: C04_exchange_bound (idp_calls_shape for all runs), C04_state_issued_with_session, C04_state_consumed, C04_replay_no_exchange. Tie to the code on every run: the REAL '
+         'handler of the current tree is driven over generated histories with spying wrappers around the real stores (memory, Redis/miniredis), key provider, generator, clock and a loopback token '
+         'endpoint; every effect with its arguments and every response are recorded, the Coq model is replayed in lock-step on the recorded answers (any difference in effects, their order, their '
+         "arguments or the projected response is a correspondence failure) and the property's monitor is evaluated on the implementation's own trace by coqc (vm_compute). Histories interleave 3 "
+         'browsers and an attacker (replayed/swapped/forged/re-cased/duplicated state and code, other sessions, other hosts, malformed queries); the ledger monitor checks every recorded code '
+         'exchange field by field against what was issued for the presented session and flags any exchange after consumption.'},
+    'C05': {'note': 'Trusted: Coq kernel+vm_compute; hand-written model (validated by lock-step replay); Go harness; jwx / encoding/json / net/url behind descriptors computed by the harness (jwt.Parse result, '
+         "independent stdlib signature verifier). Gallina axioms: none (Closed under the global context). A cookie_name_prefix containing ';', '=' or whitespace is accepted by the loader and yields "
+         'a header that does not read back as intended (C05_cookie_attrs_refuted_nontoken); the theorems carry that guard.',
+ 'technique': 'Coq proof: renewal shape of every run that draws identifiers; invariant that the map only holds ids the service drew; cookie attribute theorem via an independent RFC 6265 reading for '
+              'all cookie-safe prefixes/ids; correspondence: lock-step replay + Set-Cookie read back independently',
+ 'text': 'Machine-checked: C05_renewal, C05_tokens_under_presented_id, C05_only_issued_ids (history invariant), C05_cookie_attrs and C05_cookie_roundtrip (all cookie-safe prefixes and ids). Tie to '
+         'the code on every run: the REAL handler of the current tree is driven over generated histories with spying wrappers around the real stores (memory, Redis/miniredis), key provider, '
+         'generator, clock and a loopback token endpoint; every effect with its arguments and every response are recorded, the Coq model is replayed in lock-step on the recorded answers (any '
+         "difference in effects, their order, their arguments or the projected response is a correspondence failure) and the property's monitor is evaluated on the implementation's own trace by coqc "
+         '(vm_compute).'},
+    'C11': {'note': 'Trusted: Coq kernel+vm_compute; hand-written model (validated by lock-step replay); Go harness; jwx / encoding/json / net/url behind descriptors computed by the harness (jwt.Parse result, '
+         'independent stdlib signature verifier). Gallina axioms: none (Closed under the global context).',
+ 'technique': 'Coq proof: exact success shape (merge function) and failure shape (session removal attempted or session-error) for all answer lists; correspondence: long histories over many token '
+              'lifetimes against a rotating/omitting/failing provider with a refresh-token ledger',
+ 'text': 'Machine-checked: C11_refresh_success_shape, C11_merged_is_stored, C11_failure_ends_session. Tie to the code on every run: the REAL handler of the current tree is driven over generated '
+         'histories with spying wrappers around the real stores (memory, Redis/miniredis), key provider, generator, clock and a loopback token endpoint; every effect with its arguments and every '
+         'response are recorded, the Coq model is replayed in lock-step on the recorded answers (any difference in effects, their order, their arguments or the projected response is a correspondence '
+         "failure) and the property's monitor is evaluated on the implementation's own trace by coqc (vm_compute). Quick: 250 histories of 40-120 requests with clock advances; the ledger monitor "
+         'demands that every refresh exchange presents the refresh token the provider issued last for that session.'},
+    'C13': {'note': 'Trusted: Coq kernel+vm_compute; hand-written model (validated by lock-step replay); Go harness; jwx / encoding/json / net/url behind descriptors computed by the harness (jwt.Parse result, '
+         'independent stdlib signature verifier). Gallina axioms: none (Closed under the global context).',
+ 'technique': 'Coq proof: QueryEscape/ParseQuery/Values.Encode round-trip for ALL byte strings (256-case byte lemmas lifted by induction), hence the login Location decodes to exactly the eight '
+              'pairs; shape of every 302; correspondence: lock-step replay (byte-exact Location strings compared)',
+ 'text': 'Machine-checked: C13_escape_roundtrip, C13_encode_parse_roundtrip, C13_location_wellformed, C13_location_endpoint_query_retained, C13_redirects. Tie to the code on every run: the REAL '
+         'handler of the current tree is driven over generated histories with spying wrappers around the real stores (memory, Redis/miniredis), key provider, generator, clock and a loopback token '
+         'endpoint; every effect with its arguments and every response are recorded, the Coq model is replayed in lock-step on the recorded answers (any difference in effects, their order, their '
+         "arguments or the projected response is a correspondence failure) and the property's monitor is evaluated on the implementation's own trace by coqc (vm_compute). The model's Location is "
+         "compared byte for byte with the implementation's for client ids / scopes / callback URIs with reserved and non-ASCII bytes and an endpoint with its own query."},
+    'C14': {'note': 'Trusted: Coq kernel+vm_compute; hand-written model (validated by lock-step replay); Go harness; jwx / encoding/json / net/url behind descriptors computed by the harness (jwt.Parse result, '
+         'independent stdlib signature verifier). Gallina axioms: none (Closed under the global context). The two-run non-interference formulation is not proved (the public-expression '
+         'characterisation is); logs are not examined.',
+ 'technique': 'Coq proof: every denial of every run is assembled from an explicit list of public expressions (no secret, verifier or token among their inputs); OK adds only the configured token '
+              'headers; correspondence: lock-step replay + marker scan of every answer under 10 encodings',
+ 'text': 'Machine-checked: C14_denials_are_public, C14_ok_adds_only_tokens. Tie to the code on every run: the REAL handler of the current tree is driven over generated histories with spying wrappers '
+         'around the real stores (memory, Redis/miniredis), key provider, generator, clock and a loopback token endpoint; every effect with its arguments and every response are recorded, the Coq '
+         "model is replayed in lock-step on the recorded answers (any difference in effects, their order, their arguments or the projected response is a correspondence failure) and the property's "
+         "monitor is evaluated on the implementation's own trace by coqc (vm_compute). Every credential of a history is a unique marker; each answer's status message, headers and body are scanned "
+         'for it raw, query/path-escaped, base64 (4 alphabets), hex, %q-quoted and inside Basic credentials.'},
+    'C15': {'note': 'Trusted: Coq kernel+vm_compute; hand-written model (validated by lock-step replay); Go harness; jwx / encoding/json / net/url behind descriptors computed by the harness (jwt.Parse result, '
+         'independent stdlib signature verifier). Gallina axioms: none (Closed under the global context). encoding/json and jwx are exercised, not modelled; coverage-guided fuzzing is not part of '
+         'the quick tier.',
+ 'technique': 'Coq proof: no run of the model reaches a panicking leaf, every typed run ends in a well-formed verdict; correspondence: recover() around every real check over adversarial requests and '
+              'provider bodies, verdict class compared with the model',
+ 'text': 'Machine-checked: C15_never_panics, C15_total. Tie to the code on every run: the REAL handler of the current tree is driven over generated histories with spying wrappers around the real '
+         'stores (memory, Redis/miniredis), key provider, generator, clock and a loopback token endpoint; every effect with its arguments and every response are recorded, the Coq model is replayed '
+         "in lock-step on the recorded answers (any difference in effects, their order, their arguments or the projected response is a correspondence failure) and the property's monitor is evaluated "
+         "on the implementation's own trace by coqc (vm_compute). A panic anywhere in the real check (library code included) surfaces as OPanic in the recorded response and fails monitor and "
+         'correspondence with the concrete input.'},
+    'C10': {'note': "Trusted: Coq kernel+vm_compute; hand-written store models (validated per operation); miniredis stands for Redis; Go harness. The Redis model's agreement with the abstract map is compared "
+         'on every explored sequence, not proved. Gallina axioms: none.',
+ 'technique': 'Coq proof: abstract session map parameterised by a liveness rule; band lemmas (lia over Z.div) for the memory and the Redis rule; honoured-only-if-alive / live-is-honoured / '
+              'creation-time-fixed for any rule; the memory-store model equals the map under its rule for ALL operation sequences (simulation); correspondence: real stores under a virtual clock vs '
+              'the models in lock-step + an observation-only band monitor + a system-level run through the real start-up wiring',
+ 'text': 'Machine-checked: C10_memory_rule_band, C10_redis_rule_band (never honoured after created+abs / last use+idle; alive whenever a whole second remains inside both), '
+         'C10_honoured_only_if_alive, C10_live_session_is_honoured, C10_created_fixed (activity moves only the last-use stamp), C10_memory_store_follows_its_rule (refinement, all sequences, '
+         'arbitrary clock readings). Tie to the code on every run: ~1,500 random operation sequences (3-30 ops, clock advances landing on / 1 ns / 1 s around each limit, 12 (abs,idle) pairs incl. '
+         'zero) + all length-2 sequences over 2 ids x 6 ops x 3 advances, executed on the REAL memory store and the REAL Redis store (miniredis in step with the virtual clock), compared per '
+         'operation with the Coq models of both stores (Redis at command level: HSET/HDEL/HSETNX/EXPIREAT in whole seconds) and judged by a band monitor that uses the observed results only; plus the '
+         'store as assembled by NewSessionStoreFactory.PreRun with the real clock (2 s absolute, 1 s idle).'},
+    'C12': {'note': 'Trusted: as C10. Known finding (narrow, KNOWN-FINDING line): Redis ClearAuthorizationState on a missing session errs. Outside the well-formed guard Redis hides unparsable ID tokens / '
+         'incomplete login states (Example C12_refuted_unguarded); redis_refines_spec is compared, not proved.',
+ 'technique': 'Coq proof: the abstract map without expiry IS the plain map (all sequences); plain-map laws; memory-store model refines the abstract map (simulation, all sequences); correspondence: '
+              'both real stores vs their models and vs the abstract map per operation, operations routed to two Redis store objects; linearizability of concurrent memory-store histories by witness '
+              'order checked in Coq',
+ 'text': 'Machine-checked: C12_spec_is_plain_map, C12_read_latest_write, C12_ids_independent, C12_remove_erases_all, C12_clear_keeps_tokens, C12_memory_refines_spec, C12_created_fixed. Tie to the '
+         'code on every run: the same store-level sequences as C10 (incl. bounded-exhaustive short ones) on the real memory store and on two Redis store objects sharing one server (each operation '
+         "routed to either: a store object holds no session state), each result compared with the store's Coq model AND with the abstract map under the store's liveness rule (well-formed values for "
+         'Redis); ~150 concurrent histories (3-4 goroutines x 4-5 operations) of the real memory store for which the harness searches a linearization and Coq verifies it (permutation, real-time '
+         'order, sequential replay on the memory model gives the observed results).'},
     "C07": {
         "technique": "Coq proof (induction over rule/pattern lists and strings) of the trigger decision = documented function of the path component, for all rule sets, targets and regex engines; correspondence: exhaustive small-alphabet targets x rule sets through ExtAuthZFilter.Check, evaluated against model and an independent monitor by coqc vm_compute",
         "text": "Machine-checked theorems (C07_trigger_spec, C07_query_irrelevant, C07_path_split; closed under the global context) over a model of GetPathQueryFragment/stringMatch/matchTriggerRule/mustTriggerCheck, for ALL rule sets and ALL byte strings. The model is tied to the code on every run by running ExtAuthZFilter.Check of the current tree on every target over {/,a,b,.,?,#} up to length 5 (6 in thorough) for dozens of rule sets (all four match kinds, regex from a sub-grammar) and comparing with the model and with an independently written boolean spec inside Coq.",
